@@ -1,0 +1,9 @@
+//go:build verif
+
+package packfile
+
+// VerifDeltaSizeLimit exposes DeltaSelector.deltaSizeLimit to the
+// verification harness.
+func VerifDeltaSizeLimit(targetSize int64, baseDepth, targetDepth int, targetDelta bool) int64 {
+	return (&DeltaSelector{}).deltaSizeLimit(targetSize, baseDepth, targetDepth, targetDelta)
+}
